@@ -95,3 +95,15 @@ harness!(tm_insert_range_any_map, 6, {
     insert_range_case(2);
 });
 
+
+// @harness props=C21 tier=thorough timeout=1200 desc="a -= b on the interval model (exact on the whole u32 domain, so a full fragment minus a bitmap keeps every other offset up to u32::MAX): set difference, invariant kept (one fragment per side, one interval per bitmap)"
+harness!(tm_difference_intervals, 16, {
+    let mut a = RowIdTreeMap::verif_any(1, 1);
+    let b = RowIdTreeMap::verif_any(1, 1);
+    let x: u64 = vnd::any();
+    let (ia, ib) = (a.contains(x), b.contains(x));
+    a -= &b;
+    vnd::cover!(ia && !ib && x as u32 == u32::MAX, "the last offset of a fragment survives");
+    assert!(a.contains(x) == (ia && !ib));
+    assert!(a.verif_wf());
+});
